@@ -62,7 +62,7 @@ def readme():
         m = json.load(open(mp))
         det = m.get('detected', {})
         caught = ', '.join('%s (%s)' % (k, (v['first_signatures'] or ['?'])[0][:70]) for k, v in det.items() if v['exit'] == 1) or 'NOT DETECTED'
-        rows.append('| %s | %s | %s | %s | %s |' % (m['id'], m['property'], ', '.join(m.get('files_changed', [])), (m.get('needs') or '').replace('|', '/'), caught.replace('|', '/')))
+        rows.append('| %s | %s | %s | %s | %s |' % (m.get('id', os.path.basename(d.rstrip('/'))), m['property'], ', '.join(m.get('files_changed', [])), (m.get('needs') or '').replace('|', '/'), caught.replace('|', '/')))
     out = ['# Seeded property-breaking changes', '',
            'Each directory holds `patch.diff` (against /repo HEAD), `demo.py` (exit 1 with the patch, 0 without), the',
            "author's `note.md` and `meta.json` (what it needs to manifest, what was run, which checks report it). All were",
